@@ -422,6 +422,50 @@ V("C02", "arc-cell-angles-from-shifted-columns", "mdtraj/formats/arc.py", "     
 V("C02", "arc-last-atom-dropped", "mdtraj/formats/arc.py", "        # Now do the last atom\n        atom_names[i] = s[1]\n        bond_partners[i] = [int(x) for x in s[6:]]\n        coords[i, :] = [float(s[pos]) for pos in [2, 3, 4]]", "        # Now do the last atom\n        atom_names[i] = s[1]\n        bond_partners[i] = [int(x) for x in s[6:]]", "C02-R8", "ArcTrajectoryFile.read")
 V("C02", "twin-arc-for-loop-over-atoms", "mdtraj/formats/arc.py", "            coords[i, :] = [float(s[pos]) for pos in [2, 3, 4]]\n            i += 1", "            coords[i, :] = [float(s[2]), float(s[3]), float(s[4])]\n            i += 1", None)
 
+# round 12: adjugate rows, masked last block, closest contact, view-backed trajectories, caller's bond order, donors of mixed participation
+T_ = "mdtraj/rmsd/src/theobald_rmsd.cpp"
+V("C06", "adjugate-row-1-wrong-sign", T_, "            q1 =  k00*k2233_2323 - k02*k0233_0323 + k03*k0223_0322;", "            q1 =  k00*k2233_2323 + k02*k0233_0323 + k03*k0223_0322;", "C06-R4", "msdFromMandG")
+V("C06", "adjugate-row-2-skipped", T_, """                q0 =  k13*k0213_0312 - k23*k0113_0311 + k33*k0112_0211;
+                q1 = -k03*k0213_0312 + k23*k0013_0103 - k33*k0012_0102;
+                q2 =  k03*k0113_0311 - k13*k0013_0103 + k33*k0011_0101;
+                q3 = -k03*k0112_0211 + k13*k0012_0102 - k23*k0011_0101;
+                qsqr = q0*q0 + q1*q1 + q2*q2 + q3*q3;
+
+                if (qsqr < 1e-11f) {""", """                {""", "C06-R4", "msdFromMandG")
+V("C06", "adjugate-row-3-norm-not-recomputed", T_, """                    q3 =  k02*k0112_0211 - k12*k0012_0102 + k22*k0011_0101;
+                    qsqr = q0*q0 + q1*q1 + q2*q2 + q3*q3;""", """                    q3 =  k02*k0112_0211 - k12*k0012_0102 + k22*k0011_0101;""", "C06-R4", "msdFromMandG")
+V("C06", "identity-after-row-0-only-again", T_, """        if (qsqr < 1e-11f) {
+            q0 = -k01*k2233_2323 + k02*k1233_1323 - k03*k1223_1322;""", """        if (0) {
+            q0 = -k01*k2233_2323 + k02*k1233_1323 - k03*k1223_1322;""", "C06-R4", "msdFromMandG")
+V("C06", "twin-adjugate-minor-inlined", T_, "                k0011_0101 = k00*k11 - k01*k01;", "                k0011_0101 = k11*k00 - k01*k01;", None)
+V("C06", "mask-row-3-loads-four", "mdtraj/rmsd/src/theobald_rmsd_sse.h", "        {1, 1, 1, 0}", "        {1, 1, 1, 1}", "C06-R5", "msd_atom_major", count=2)
+V("C06", "twin-mask-table-as-counts", "mdtraj/rmsd/src/theobald_rmsd_sse.h", """    static const int masks[4][4] = {
+        {1, 1, 1, 1},
+        {1, 0, 0, 0},
+        {1, 1, 0, 0},
+        {1, 1, 1, 0}
+    };""", """    static const int masks[4][4] = {
+        {1, 1, 1, 1},
+        {1, 0, 0, 0},
+        {2, 2, 0, 0},
+        {3, 3, 3, 0}
+    };""", None, count=2)
+G_ = "mdtraj/geometry/src/geometry.cpp"
+V("C09", "closest-contact-c-vector-from-a", G_, "        box_vec3 = fvec4(box_vectors_pointer[6], box_vectors_pointer[7], box_vectors_pointer[8], 0);", "        box_vec3 = fvec4(box_vectors_pointer[2], box_vectors_pointer[7], box_vectors_pointer[8], 0);", "C09-R3", "find_closest_contact")
+V("C09", "closest-contact-b-not-subtracted", G_, "                delta -= box_vec2*floorf(delta[1]*recip_box_size[1]+0.5f);\n", "", "C09-R3", "find_closest_contact")
+V("C09", "closest-contact-half-vector", G_, "                delta -= box_vec1*floorf(delta[0]*recip_box_size[0]+0.5f);", "                delta -= box_vec1*0.5f*floorf(delta[0]*recip_box_size[0]+0.5f);", "C09-R3", "find_closest_contact")
+V("C09", "twin-closest-contact-round-term-named", G_, "                delta -= box_vec1*floorf(delta[0]*recip_box_size[0]+0.5f);", "                float n_a = floorf(delta[0]*recip_box_size[0]+0.5f);\n                delta -= box_vec1*n_a;", None)
+V("C03", "slice-copies-only-direct-views", "mdtraj/core/trajectory.py", "            xyz = xyz.copy()\n            time = time.copy()", "            xyz = xyz.copy() if xyz.base is self._xyz else xyz\n            time = time.copy()", "C03-R1", "Trajectory.slice")
+V("C03", "twin-slice-copy-via-np-array", "mdtraj/core/trajectory.py", "            xyz = xyz.copy()\n            time = time.copy()", "            xyz = np.array(xyz)\n            time = time.copy()", None)
+V("C11", "whole-molecules-resorts-given-bonds", "mdtraj/core/trajectory.py", """        box = np.asarray(result.unitcell_vectors, order="c")
+        _geometry.whole_molecules(result.xyz, box, sorted_bonds)""", """        box = np.asarray(result.unitcell_vectors, order="c")
+        sorted_bonds = sorted_bonds[np.argsort(sorted_bonds[:, 0], kind="stable")]
+        _geometry.whole_molecules(result.xyz, box, sorted_bonds)""", "C11-R4", "Trajectory.make_molecules_whole")
+V("C14", "donor-filter-looks-at-hydrogen-only", "mdtraj/geometry/hbond.py", "        atoms = [atom for atom in atoms if can_participate(atom[0]) and can_participate(atom[1])]",
+  "        atoms = [(one, two) for one, two in atoms if can_participate(two if two.element.symbol == \"H\" else one)]", "C14-R2", "_get_bond_triplets")
+V("C14", "twin-donor-filter-all", "mdtraj/geometry/hbond.py", "        atoms = [atom for atom in atoms if can_participate(atom[0]) and can_participate(atom[1])]",
+  "        atoms = [atom for atom in atoms if all(can_participate(a_) for a_ in atom)]", None)
+
 # twins learnt from the independently seeded changes (the refactoring without the bug must stay silent)
 V("C04", "twin-hdf5-getter-uses-dict-get", "mdtraj/formats/hdf5.py",
   """                try:
